@@ -643,3 +643,67 @@ def c11_ondisk_two_annotations(gs: int, ge: int, plus: bool, a0: int, b0: int, a
     post: _ >= 0
     """
     return _two_annotations(gs, ge, plus, a0, b0, a1, b1, delta)
+
+
+# --------------------------------------------------------------------------
+# a lookup of an id that is NOT in the annotation (what the fusion parsers do for unknown genes) must leave the
+# pointer cache in a valid state: it is one of the "any order and number of accesses"
+# --------------------------------------------------------------------------
+def _cache_missing_key(kind, state):
+    n = len(state)
+    for i in range(n):
+        if not 0 <= state[i] <= 4:
+            return SKIP
+        for j in range(i):
+            if state[i] == state[j]:
+                return SKIP
+
+    def fake_load(self):
+        return _Model(self.key)
+
+    if kind == 0:
+        d = GenePointerDict()
+        cls = GenePointer
+        for key in KEYS:
+            d[key] = GenePointer(None, key, 0, 1, 'S')
+    else:
+        d = TranscriptPointerDict()
+        cls = TranscriptPointer
+        for key in KEYS:
+            d[key] = TranscriptPointer(None, key, 0, 1, 'S', is_protein_coding=False)
+    d._cache = {KEYS[i]: _Model(KEYS[i]) for i in state}
+    d._cached_keys = deque(KEYS[i] for i in state)
+    with patched((cls, 'load', fake_load), (gp, 'GENE_DICT_CACHE_SIZE', 3), (gp, 'TX_DICT_CACHE_SIZE', 3)):
+        try:
+            d['UNKNOWN']
+            return -1              # an id that is not annotated returned a model
+        except KeyError:
+            pass
+    # the state after the failed lookup must again be a valid state of c11_pointer_cache_step (whose inductive step then
+    # covers every later access): distinct ANNOTATED keys, at most 3, queue and dictionary in agreement
+    keys_after = list(d._cached_keys)
+    if len(keys_after) > 3 or len(set(keys_after)) != len(keys_after):
+        return -2
+    if set(keys_after) != set(d._cache):
+        return -2                  # e.g. the unknown id stays queued: its later eviction raises KeyError on a VALID lookup
+    for key in keys_after:
+        if key not in KEYS or d._cache[key].key != key:
+            return -2
+    return OK
+
+
+@cond('C11', bounds='from ANY valid cache state (<= 3 of 5 keys cached, cache size patched to 3): one lookup of an id that is '
+      'not annotated must raise KeyError and leave a valid cache state (inductive step; later accesses are covered by '
+      'c11_pointer_cache_step); gene and transcript dictionaries',
+      encodes=ENC_C, stubs=['GenePointer.load / TranscriptPointer.load -> per-key token',
+                            'GENE_DICT_CACHE_SIZE, TX_DICT_CACHE_SIZE -> 3'],
+      codes={-1: 'an id that is not annotated returned a model', -2: 'a failed lookup left an invalid cache state (the '
+             'unknown id stays queued without a cached model: when it is evicted, a later lookup of an ANNOTATED id raises '
+             'KeyError)'}, tokens=True, timeout=300)
+def c11_pointer_cache_missing_key(kind: int, state: List[int]) -> int:
+    """
+    pre: 0 <= kind <= 1
+    pre: len(state) <= 3
+    post: _ >= 0
+    """
+    return _cache_missing_key(kind, state)
